@@ -101,6 +101,26 @@ class Universe:
         alts = {k: self.payload_value(ex, st, k, depth, hint, list_len, ctx_len) for k in kinds}
         return En("Value", disc.e, alts)
 
+    def replayable_pref(self, v):
+        """z3 constraint preferring a witness that FEEL literals can express (small ranks, comparable temporal values)"""
+        c = []
+        for name, p in v.alts.items():
+            if name in ("Number", "DaysAndTimeDuration", "YearsAndMonthsDuration"):
+                c.append(z3.And(p[0].e >= -100, p[0].e <= 100))
+            elif name == "String":
+                c.append(z3.And(p[0].attrs["id"] >= 0, p[0].attrs["id"] <= 20))
+            elif name in ("Time", "DateTime"):
+                c.append(z3.And(p[0].e[1], p[0].e[0] >= 0, p[0].e[0] < 86400))
+            elif name == "Date":
+                c.append(z3.And(p[0].fields[0].e >= 1000, p[0].fields[0].e <= 9999))
+            elif name == "List":
+                c += [self.replayable_pref(x) for x in p[0].fields[0].items]
+            elif name == "Context":
+                for e in p[0].fields[0].items:
+                    c.append(z3.And(e.fields[0].e >= 0, e.fields[0].e <= 50))
+                    c.append(self.replayable_pref(e.fields[1]))
+        return z3.And(c) if c else z3.BoolVal(True)
+
     def describe(self, model, v, mv):
         """python rendering of a symbolic value under a z3 model (for counterexample reports / replay)"""
         d = mv(model, v.disc)
